@@ -15,6 +15,14 @@ CLAIMED = {
         note=COMMON_NOTE + "Cython fixed-width integers are not modelled.",
         tech="machine-checked proof in Coq (induction over the chunk list, prefix-free framing) + model/implementation correspondence",
         ref="DESIGN.md §5 C01"),
+    "C02": dict(
+        text="Coq theorems C02_plain_conforms (all packet lists), C02_varint_minimal/bytes (all values), C02_noise_conforms (all AEADs satisfying decrypt(encrypt)=id and a 16-byte tag, "
+             "all histories of write calls, consecutive nonces, one write per call), C02_ids_fit (generated registry), C02_noise_oversize_refuted (known finding F9); "
+             "specification decoders written independently from the api.proto comment block / Noise framing. Tied to the code by correspondence (extracted writers vs real "
+             "write_packets, Noise frames decrypted by an independent responder with its own nonce counter) and APIConnection.send_messages over SimNet for every registered class.",
+        note=COMMON_NOTE + "The AEAD is a parameter (section hypothesis: correctness and tag length), real ChaCha20-Poly1305 and protobuf serialisation are trusted. Known finding F9 (payload > 65515 bytes) is listed in known_findings.json.",
+        tech="machine-checked proof in Coq (round-trip against an independent spec decoder, induction over write histories) + model/implementation correspondence",
+        ref="DESIGN.md §5 C02"),
     "C13": dict(
         text="Coq theorems C13_registry_is_proto / ids_unique_contiguous / descriptors_agree / direction: generic checker-soundness lemmas (proved for all tables) "
              "applied by vm_compute to tables regenerated from core.py, api.proto, the compiled descriptors and client.py/connection.py on every run; complete over the finite tables.",
